@@ -212,6 +212,39 @@ def main(ctx: Ctx):
                     os.kill(p, signal.SIGKILL)
                 except Exception:
                     pass
+        # ---- every kind: the child-side start-up hook (_init_child) of a subclass raises
+        classes = TG._mk_failing_init()
+        sess.write_conf(None)
+        srv2 = spawn_server(('127.0.0.1', 0))
+        try:
+            for cls in classes:
+                kw = {'host': srv2.addr, 'main_path': ''} if cls.is_remote else {}
+                box = {}
+
+                def go(cls=cls, kw=kw):
+                    box['w'] = cls(TG.f_add, args=[1], **kw)
+                st, e = watchdog(go, HANG)
+                w = box.get('w')
+                obs = None
+                if st == 'ok' and w is not None:
+                    st2, r = watchdog(lambda: w.wait(5), 10)
+                    obs = (st2, r, w.has_error if st2 == 'ok' and r else None)
+                ctx.case(('failing-init-child', cls.__name__), True, sample={'case': 'start-up hook of the child raises', 'class': cls.__name__, 'constructor': st if st != 'exc' else 'raises ' + type(e).__name__, 'then': obs})
+                if st == 'hang':
+                    ctx.fail(f'ctor-hangs:{"remote" if cls.is_remote else "process" if cls.is_process else "thread"}:init-child-raises', f'{cls.__name__}: the constructor hangs when _init_child raises in the child', {'class': cls.__name__, 'scenario': 'failing-init-child'})
+                elif st == 'ok' and obs != ('ok', True, True):
+                    ctx.fail(f'ctor-returns-unusable:init-child-raises', f'{cls.__name__}: constructor returned although _init_child raised; the worker then: wait/has_error = {obs}', {'class': cls.__name__, 'scenario': 'failing-init-child'})
+                try:
+                    if w is not None:
+                        w.terminate(0.5, **({'force': True} if not cls.is_thread else {}))
+                except BaseException:  # noqa
+                    pass
+        finally:
+            for p in RP.descendants(srv2.pid) + [srv2.pid]:
+                try:
+                    os.kill(p, signal.SIGKILL)
+                except Exception:
+                    pass
         # ---- process kind: the child dies before it reported its identity
         import landing
         ml = landing.model_runs(ctx, [inject.model_line('processRun', 'r', 0, None, None, False)])
@@ -232,6 +265,22 @@ def main(ctx: Ctx):
 
 
 def replay(case):
+    if case.get('scenario') == 'failing-init-child':
+        cls = next(c for c in TG._mk_failing_init() if c.__name__ == case['class'])
+        from common import spawn_server
+        srv = spawn_server(('127.0.0.1', 0)) if cls.is_remote else None
+        box = {}
+
+        def go():
+            box['w'] = cls(TG.f_add, args=[1], **({'host': srv.addr, 'main_path': ''} if srv else {}))
+        print('constructor:', watchdog(go, 8))
+        if srv:
+            for p in RP.descendants(srv.pid) + [srv.pid]:
+                try:
+                    os.kill(p, signal.SIGKILL)
+                except Exception:
+                    pass
+        return
     if 'script' in case:
         from pyworkers.remote import RemoteWorker
         fs = FakeServer(tuple(case['script']))
